@@ -53,7 +53,7 @@ CLAIMED.update({
 CLAIMED.update({
     "C18": ("static enumeration of blocking primitives with bounded-by rules (timer/stop-signal select cases, receive-until-closed, timeouts, deadlines) and a reviewed table; must-precede and signal-once path rules",
             "Every blocking primitive in production functions is bounded by rule or by a reviewed-table entry that states what bounds it (listed as 'assumed' obligations); the stop signal is wired to the active session's abort; "
-            "connection I/O runs only after a non-zero deadline was applied; the bufferer closes and signals before its timed wait; listener and connections are closed on stop; a timeout case on a channel handed in by the caller counts only if every call site passes a time.After made for that call (a timer channel fires once); no Signal/close can run twice on a path. The numeric bound is not decided.", "§4 C18"),
+            "connection I/O runs only after a non-zero deadline was applied; the bufferer closes and signals before its timed wait; listener and connections are closed on stop (a closer goroutine per connection launched before the first read, or — registry form — the connection is registered for a sweep and the stop request is consulted after registering, before the first read); a timeout case on a channel handed in by the caller counts only if every call site passes a time.After made for that call (a timer channel fires once); no Signal/close can run twice on a path. The numeric bound is not decided.", "§4 C18"),
 })
 
 CLAIMED.update({
